@@ -34,7 +34,7 @@ import (
 // environment
 
 var (
-	vOutDir   = os.Getenv("VERIF_OUT")     // where stats.json / fail-*.json go
+	vOutDir   = os.Getenv("VERIF_OUT") // where stats.json / fail-*.json go
 	vTier     = vEnvDefault("VERIF_TIER", "quick")
 	vShard    = vEnvInt("VERIF_SHARD", 0)
 	vNShards  = vEnvInt("VERIF_NSHARDS", 1)
@@ -160,31 +160,31 @@ type vFailFile struct {
 // statistics (evidence)
 
 type vStats struct {
-	mu        sync.Mutex
-	Property  string                     `json:"property"`
-	Tests     map[string]*vTestStats     `json:"tests"`
-	Faults    []string                   `json:"faults"`
-	Failures  []string                   `json:"failures"` // fail file names
-	WallS     float64                    `json:"wall_s"`
-	Notes     []string                   `json:"notes"`
-	started   time.Time
+	mu       sync.Mutex
+	Property string                 `json:"property"`
+	Tests    map[string]*vTestStats `json:"tests"`
+	Faults   []string               `json:"faults"`
+	Failures []string               `json:"failures"` // fail file names
+	WallS    float64                `json:"wall_s"`
+	Notes    []string               `json:"notes"`
+	started  time.Time
 }
 
 type vTestStats struct {
-	Kind        string           `json:"kind"`
-	Rule        string           `json:"rule"`
-	Requested   int              `json:"requested"`
-	Evaluations int              `json:"evaluations"`
-	Runs        int              `json:"program_runs"` // CLI/API invocations of the code under test
-	NonTrivial  map[string]bool  `json:"-"`
-	NTHashes    []string         `json:"nontrivial_hashes"`
-	Labels      map[string]int   `json:"labels"`
-	Excluded    map[string]int   `json:"excluded"`
+	Kind        string            `json:"kind"`
+	Rule        string            `json:"rule"`
+	Requested   int               `json:"requested"`
+	Evaluations int               `json:"evaluations"`
+	Runs        int               `json:"program_runs"` // CLI/API invocations of the code under test
+	NonTrivial  map[string]bool   `json:"-"`
+	NTHashes    []string          `json:"nontrivial_hashes"`
+	Labels      map[string]int    `json:"labels"`
+	Excluded    map[string]int    `json:"excluded"`
 	Samples     []json.RawMessage `json:"samples"`
-	Exhaustive  bool             `json:"exhaustive"`
-	Scope       string           `json:"scope,omitempty"`
-	Failed      bool             `json:"failed"`
-	Completed   bool             `json:"completed"`
+	Exhaustive  bool              `json:"exhaustive"`
+	Scope       string            `json:"scope,omitempty"`
+	Failed      bool              `json:"failed"`
+	Completed   bool              `json:"completed"`
 }
 
 var vAll = &vStats{Tests: map[string]*vTestStats{}, started: time.Now()}
@@ -492,10 +492,10 @@ func vTrunc(s string, n int) string {
 }
 
 type vInvocation struct {
-	Args []string          `json:"args"`           // without argv[0]
-	Env  map[string]string `json:"env,omitempty"`  // HR_* variables (all others HR_* are unset)
-	TZ   string            `json:"tz,omitempty"`   // IANA zone name, "" = UTC
-	Cwd  string            `json:"-"`              // working directory ("" = unchanged)
+	Args []string          `json:"args"`          // without argv[0]
+	Env  map[string]string `json:"env,omitempty"` // HR_* variables (all others HR_* are unset)
+	TZ   string            `json:"tz,omitempty"`  // IANA zone name, "" = UTC
+	Cwd  string            `json:"-"`             // working directory ("" = unchanged)
 }
 
 var vHREnv = []string{"HR_DATABASE", "HR_LOGFILE", "HR_CONFIG", "HR_DATE_FORMAT", "HR_MAXDEPTH"}
